@@ -66,6 +66,7 @@ def dispatch (req : Sexp) : Sexp :=
   | .list (.atom "literal" :: args) => Driver.C03.handleLiteral args
   | .list (.atom "spec-mv" :: args) => Driver.C03.handleSpecMv args
   | .list (.atom "c03-judge" :: args) => Driver.C03.handleJudge args
+  | .list (.atom "c03-strlit" :: args) => Driver.C03.handleStrLit args
   | _ => .list [.atom "bad-request"]
 
 partial def loop (h : IO.FS.Stream) (out : IO.FS.Stream) : IO Unit := do
